@@ -113,3 +113,25 @@ Proof.
   change (pollst_new t) with (shift d (pollst_new t)) at 1. rewrite clock_origin_irrelevant.
   destruct (prun1 c now (pollst_new t) h) as [[n2 s2] outs]. reflexivity.
 Qed.
+
+(** once due, always due: a value that a poll at [now] reports (or an unpaired LSB it drops) is
+    reported (dropped) in exactly the same way by a poll at any later instant instead *)
+Lemma poll_due_monotone now now' st c :
+  now <= now' -> fst (poll_poll1 now st c) <> st \/ snd (poll_poll1 now st c) <> None ->
+  poll_poll1 now' st c = poll_poll1 now st c.
+Proof.
+  intros Hle. unfold poll_poll1. destruct (p_state st) as [f sr sm|ns|ns a fv fm|ns vm vl];
+    try (cbn [fst snd]; intros [H|H]; congruence).
+  destruct (N.ltb_spec (now - a) (p_timeout st)) as [Hlt|Hge].
+  - cbn [fst snd]. intros [H|H]; congruence.
+  - intros _. destruct (N.ltb_spec (now' - a) (p_timeout st)) as [Hlt'|Hge']; [lia|reflexivity].
+Qed.
+
+(** and a poll that is too early at [now'] is too early at every earlier instant *)
+Lemma poll_early_monotone now now' st c ns a fv fm :
+  p_state st = PPending ns a fv fm -> now <= now' -> now' - a < p_timeout st ->
+  poll_poll1 now st c = (st, None).
+Proof.
+  intros Hs Hle Hlt. unfold poll_poll1. rewrite Hs.
+  destruct (N.ltb_spec (now - a) (p_timeout st)) as [H|H]; [reflexivity|lia].
+Qed.
